@@ -216,7 +216,14 @@ class Ctx:
                 rtag = "other"
         except ValueError:
             rtag = "unset"
-        return [bits, rtag, etag]
+        # the badge list() / debrief() print for this job: life-cycle and outcome symbols
+        short = job.repr_short()
+        life = {"\u2613": 0, "\u21ba": 1, "\u2691": 2, "\u2690": 3, "x": 0, "o": 1, ".": 2, ">": 3}
+        boom = {"\u2605": 0, "\u2609": 1, ":(": 0, ":)": 1}
+        parts = short.split(" ")
+        lcode = next((life[c] for c in short if c in life), 9)
+        bcode = next((boom[c] for c in short if c in boom), 2)
+        return [bits, rtag, etag, lcode * 3 + bcode]
 
     def snap(self):
         self.log("snap", 0,
